@@ -49,6 +49,10 @@ META = {
                 text="contracts: part proved, part bounded. Proved for all extents and masks (1-2 sample dims, standardisation, sample MultiIndex): data with an isolated NaN never passes fit or transform, transform data whose feature mask differs (as seen by the Sanitizer) never passes, the kept block is valid-features x valid-samples of the data itself, dropped labels are re-inserted on every inverse path, check_nans=False drops nothing. Bounded: equality with the model fitted on pre-deleted data (singular values, scores, components, NaN positions of outputs) for every subset of <=2 of 6 features and <=2 of 7 samples, rotated and cross-set models.",
                 note="assumed: xarray notnull/any/sum/isin/where/reindex as modelled, skipna statistics; known findings: cross-set missing samples at different positions with equal counts; complete transform data accepted by a model fitted with missing features when centring is on; bounded: 110 (quick) / ~900 (thorough) masks",
                 ref="5/C06"),
+    "C02": dict(level="other", technique="contract-based deductive verification: the real Preprocessor chain traced on structural proxies over the enumerated structure family, inverse-chain obligations on dims / coordinate identities / index kinds, value identity by z3 on the generic element; bounded round trips on the real code (Datasets, index kinds) as labelled stand-in",
+                text="contracts: part proved, part bounded. Proved for all extents and coordinate contents of every enumerated DataArray / list structure (1-3 sample dims x 1-3 feature dims x orders, sample/feature MultiIndex, flags, lists of 2-3): inverse_transform_data(fit_transform(X)) has the input's dims in the input's order, the input's labels per dim, restored index kinds and values equal to X's (z3); components come back with feature dims + mode and the input's feature labels, scores with sample dims + mode; user inputs not mutated. Bounded: Dataset containers (equal/different dim sets), unsorted/string/datetime/MultiIndex coordinates, extra non-index coordinates, custom names, Preprocessor and EOF level.",
+                note="assumed: xarray structural laws as modelled (vf/sym/ldom.py); Dataset stacking internals only exercised; known findings: Datasets with variables of different dim sets, lists with the sample dim at different axis positions; bounded: 112 (quick) / ~870 (thorough) round trips",
+                ref="5/C02"),
 }
 NA_REASON = "no check registered yet in this snapshot of /verif (build in progress; see DESIGN.md section 5 for the plan)"
 
